@@ -28,7 +28,7 @@ func stdlibEffects(fn *ssa.Function) ([]string, bool) {
 }
 
 func (g *Gen) byteAt(st *State, s Term, i Term) Term {
-	return sel(g.heap(st, bvSort(8)), elemLoc(sArr(s), bvop("bvadd", sOff(s), i)))
+	return g.heapSelect(g.heap(st, bvSort(8)), elemLoc(sArr(s), bvop("bvadd", sOff(s), i)))
 }
 
 // uvarintDecode builds (value, n) terms of binary.Uvarint(buf) following the library source:
@@ -89,7 +89,10 @@ func (g *Gen) uvarintEncode(x Term) (Term, [10]Term) {
 // writeBytes stores bs[i] at elem(arr, off+i) for i < n (n symbolic, len(bs) small).
 func (a *Activation) writeBytes(st *State, arr, off Term, bs []Term, n Term) {
 	g := a.g
-	h := g.heap(st, bvSort(8))
+	h0 := g.define("H", g.heap(st, bvSort(8)))
+	h := h0
+	arr = g.define("wba", arr)
+	off = g.define("wbo", off)
 	for i, b := range bs {
 		loc := elemLoc(arr, bvop("bvadd", off, bv64(uint64(i))))
 		var v Term
@@ -99,9 +102,10 @@ func (a *Activation) writeBytes(st *State, arr, off Term, bs []Term, n Term) {
 			}
 			v = b
 		} else {
-			v = ite(bvcmp("bvult", bv64(uint64(i)), n), b, sel(h, loc))
+			// locations of different i are distinct, so the old value can be read from h0
+			v = ite(bvcmp("bvult", bv64(uint64(i)), n), b, g.heapSelect(h0, loc))
 		}
-		h = sto(h, loc, v)
+		h = g.heapStore(h, loc, v)
 	}
 	st.heaps[bvSort(8)] = g.define("H", h)
 }
@@ -143,7 +147,7 @@ func beBytes(v Term, nbytes int, bigEndian bool) []Term {
 
 func (a *Activation) readEndian(st *State, buf Term, nbytes int, bigEndian bool, pos token.Pos) Term {
 	g := a.g
-	a.boundCheck(st, "idx", bvcmp("bvuge", sLen(buf), bv64(uint64(nbytes))), pos)
+	a.boundCheck(st, "idx", bvcmp("bvsge", sLen(buf), bv64(uint64(nbytes))), pos)
 	var res Term
 	for i := 0; i < nbytes; i++ {
 		k := i
@@ -170,7 +174,17 @@ func (a *Activation) stdlibCall(st *State, callee *ssa.Function, cc *ssa.CallCom
 	case "encoding/binary.Uvarint":
 		mark()
 		v, n := g.uvarintDecode(st, args[0].T)
-		return Val{Tuple: []Val{{T: v}, {T: n}}}, true
+		if o := a.owner(); o.spec != nil && o.spec.Tags["no-hints"] {
+			return Val{Tuple: []Val{{T: v}, {T: n}}}, true
+		}
+		// Name the results and state the bounds that follow from the definition
+		// (-11 <= n <= 10, n <= len(buf)) as redundant facts: they are proved once from
+		// the definition by the harness kv.verifUvarintBounds (tag no-hints).
+		vC, nC := g.fresh("uvval", bvSort(64)), g.fresh("uvcnt", bvSort(64))
+		g.assertLine(and(bvcmp("bvsle", bv64(^uint64(10)), nC), bvcmp("bvsle", nC, bv64(10)), bvcmp("bvsle", nC, sLen(args[0].T)),
+			implies(bvcmp("bvsle", nC, bv64(0)), eq(vC, bv64(0)))), vC, nC)
+		g.assertHeavy(and(eq(vC, v), eq(nC, n)), vC, nC)
+		return Val{Tuple: []Val{{T: vC}, {T: nC}}}, true
 	case "encoding/binary.AppendUvarint":
 		mark()
 		n, bs := g.uvarintEncode(args[1].T)
@@ -179,7 +193,7 @@ func (a *Activation) stdlibCall(st *State, callee *ssa.Function, cc *ssa.CallCom
 		mark()
 		n, bs := g.uvarintEncode(args[1].T)
 		buf := args[0].T
-		a.boundCheck(st, "idx", bvcmp("bvule", n, sLen(buf)), pos)
+		a.boundCheck(st, "idx", bvcmp("bvsle", n, sLen(buf)), pos)
 		a.frameRange(st, sArr(buf), sOff(buf), n, pos)
 		a.writeBytes(st, sArr(buf), sOff(buf), bs[:], n)
 		return Val{T: n}, true
@@ -207,7 +221,7 @@ func (a *Activation) stdlibCall(st *State, callee *ssa.Function, cc *ssa.CallCom
 		return a.havocValue(st, resT, "sprintf"), true
 	case "bytes.Equal":
 		mark()
-		return Val{T: eq(a.bytesCompare(st, args[0].T, args[1].T), bv64(0))}, true
+		return Val{T: a.bytesEqual(st, args[0].T, args[1].T)}, true
 	case "bytes.Compare":
 		mark()
 		return Val{T: a.bytesCompare(st, args[0].T, args[1].T)}, true
@@ -232,6 +246,33 @@ func (a *Activation) stdlibCall(st *State, callee *ssa.Function, cc *ssa.CallCom
 		mark()
 		return a.havocValue(st, resT, "now"), true
 	}
+	// protobuf / raftpb codecs: trusted to read their argument, write only the receiver
+	// (Unmarshal) and allocate; nothing else is assumed about their results.
+	if callee.Pkg != nil {
+		pp := callee.Pkg.Pkg.Path()
+		if pp == "go.etcd.io/raft/v3/raftpb" || strings.HasPrefix(pp, "google.golang.org/protobuf") || strings.HasPrefix(pp, modPath+"/pb") {
+			switch callee.Name() {
+			case "Unmarshal":
+				mark()
+				g.trusted["protobuf/raftpb Marshal/Unmarshal/Size: uninterpreted results; Unmarshal writes only its receiver; totality and allocation behaviour assumed"] = true
+				if callee.Signature.Recv() != nil && len(args) > 0 {
+					if pt, ok := callee.Signature.Recv().Type().Underlying().(*types.Pointer); ok {
+						a.havocLoc(st, args[0].T, pt.Elem())
+					}
+				} else if len(args) == 2 {
+					// proto.Unmarshal(b, m): m is an interface; its target object is unknown: havoc everything
+					return Val{}, false
+				}
+				return a.havocValue(st, resT, "unmarshal"), true
+			case "Marshal", "Size", "String", "GetKey", "GetValue", "ProtoReflect":
+				if callee.Signature.Recv() != nil {
+					mark()
+					g.trusted["protobuf/raftpb Marshal/Unmarshal/Size: uninterpreted results; Unmarshal writes only its receiver; totality and allocation behaviour assumed"] = true
+					return a.havocValue(st, resT, "marshal"), true
+				}
+			}
+		}
+	}
 	// endian accessors: (encoding/binary.bigEndian).Uint32 etc.
 	if strings.HasPrefix(name, "(encoding/binary.bigEndian).") || strings.HasPrefix(name, "(encoding/binary.littleEndian).") {
 		big := strings.Contains(name, "bigEndian")
@@ -252,7 +293,7 @@ func (a *Activation) stdlibCall(st *State, callee *ssa.Function, cc *ssa.CallCom
 				return Val{T: a.readEndian(st, args[1].T, nb, big, pos)}, true
 			case strings.HasPrefix(m, "PutUint"):
 				buf := args[1].T
-				a.boundCheck(st, "idx", bvcmp("bvuge", sLen(buf), bv64(uint64(nb))), pos)
+				a.boundCheck(st, "idx", bvcmp("bvsge", sLen(buf), bv64(uint64(nb))), pos)
 				a.frameRange(st, sArr(buf), sOff(buf), bv64(uint64(nb)), pos)
 				a.writeBytes(st, sArr(buf), sOff(buf), beBytes(args[2].T, nb, big), bv64(uint64(nb)))
 				return Val{}, true
